@@ -69,6 +69,7 @@ func ruleDeciding(spec decideSpec) ruleFn {
 				"confirmed: "+reason,
 				spec.what+" depends on a condition that is not one of the confirmed ones ("+what+"): "+spec.effect)
 		}
+		resultIdx := -1 // set while the call behind an Extract is classified: which result counts
 		var classify func(in *ssa.Function, v ssa.Value, depth int)
 		classify = func(in *ssa.Function, v ssa.Value, depth int) {
 			if seen[v] || depth > 6 {
@@ -99,8 +100,22 @@ func ruleDeciding(spec decideSpec) ruleFn {
 					report(in, "dynamic type "+types.TypeString(t.AssertedType, func(p *types.Package) string { return p.Name() }), c.Pos(), "", false)
 					return
 				case *ssa.Call:
+					resultIdx = c.Index
 					classify(in, t, depth+1)
+					resultIdx = -1
 					return
+				}
+			case *ssa.Lookup:
+				// membership in a set of kinds (`kindsWithMembers[def.Kind]`): the key is of a named
+				// enumeration type, the test is on the kind of definition like a typed constant
+				if mt, ok := c.X.Type().Underlying().(*types.Map); ok && !c.CommaOk {
+					if nt, ok := mt.Key().(*types.Named); ok {
+						if _, basic := nt.Underlying().(*types.Basic); basic {
+							if bt, ok := mt.Elem().Underlying().(*types.Basic); ok && bt.Kind() == types.Bool {
+								return
+							}
+						}
+					}
 				}
 			case *ssa.Call:
 				if b, ok := c.Call.Value.(*ssa.Builtin); ok && b.Name() == "len" {
@@ -115,13 +130,18 @@ func ruleDeciding(spec decideSpec) ruleFn {
 				}
 				if sc := c.Call.StaticCallee(); sc != nil && inModule(sc) && sc.Blocks != nil && depth < 3 {
 					any := false
+					want := resultIdx
+					resultIdx = -1
 					for _, ins := range allInstrs(sc) {
 						switch x := ins.(type) {
 						case *ssa.If:
 							any = true
 							classify(sc, x.Cond, depth+1)
 						case *ssa.Return:
-							for _, res := range x.Results {
+							for ri, res := range x.Results {
+								if want >= 0 && ri != want {
+									continue // the caller looks at one result only
+								}
 								if _, isConst := res.(*ssa.Const); !isConst {
 									any = true
 									classify(sc, res, depth+1)
@@ -330,7 +350,7 @@ var ruleMergeExemptions = ruleDeciding(decideSpec{
 	},
 	what:    "whether the two declarations of a shared type are compared field by field",
 	effect:  "a pair of declarations for which it decides against the comparison is accepted unseen — overlapping fields of a Node type, conflicting field types — and which service a field is routed to then depends on the order in which the services are listed",
-	minimum: 5,
+	minimum: 3,
 })
 
 // R13d.lookup — PlanningContext.GetURL: when the routing table is consulted.
@@ -357,12 +377,15 @@ var ruleDedupConditions = ruleDeciding(decideSpec{
 	anchor: "executor.(*DepthExecutor).setIMap",
 	target: func(r *Run, ci ssa.CallInstruction) bool {
 		c := ci.Common()
-		if !strings.HasSuffix(shortCallee(c), "executor.(indexMap).Set") || len(c.Args) == 0 {
+		if !strings.HasSuffix(shortCallee(c), "indexMap).Set") || len(c.Args) == 0 {
 			return false
 		}
 		// the de-duplicating Set: its key is made of the id and the query, not of the position
-		k, ok := unwrap(c.Args[len(c.Args)-1]).(*ssa.Call)
-		return ok && strings.HasSuffix(calleeName(&k.Call), "fmt.Sprintf")
+		// (the other Set of the function is keyed by strconv.Itoa(index))
+		if k, ok := unwrap(c.Args[len(c.Args)-1]).(*ssa.Call); ok && strings.HasSuffix(calleeName(&k.Call), "strconv.Itoa") {
+			return false
+		}
+		return true
 	},
 	calls: map[string]string{
 		"common.IsRootObjectName": "child steps (lookups by id) are de-duplicated, root steps are sent as they are",
